@@ -257,6 +257,33 @@ fn point_f64(c: &Case, obs: &mut Obs) -> PropResult {
     }
     let via_from: LinSrgba<f64> = sp.into();
     ensure!(a4(via_from) == back, "From<PreAlpha> for Alpha differs from unpremultiply");
+    // every route out of the premultiplied form: PreAlpha::unpremultiply, Premultiply::unpremultiply, From for the bare colour
+    let bare: LinSrgb<f64> = sp.into();
+    ensure!([bare.red, bare.green, bare.blue] == [back[0], back[1], back[2]], "LinSrgb::from(PreAlpha {:?}) = {:?} but unpremultiply gives {:?}", p4(sp), bare, &back[..3]);
+    let (c2, a2) = <LinSrgb<f64> as palette::blend::Premultiply>::unpremultiply(sp);
+    ensure!([c2.red, c2.green, c2.blue, a2] == back, "Premultiply::unpremultiply differs from PreAlpha::unpremultiply");
+    let pre2 = <LinSrgb<f64> as palette::blend::Premultiply>::premultiply(LinSrgb::new(s[0], s[1], s[2]), s[3]);
+    ensure!(p4(pre2) == p4(sp), "Premultiply::premultiply differs from Alpha::premultiply");
+    let pre3: PreAlpha<LinSrgb<f64>> = sa.into();
+    ensure!(p4(pre3) == p4(sp), "From<Alpha> for PreAlpha differs from premultiply");
+    {
+        // the same for the other colour types that implement Premultiply
+        macro_rules! routes {
+            ($C:ty, $new:expr, $name:expr) => {{
+                let c: $C = $new;
+                let pre = <$C as palette::blend::Premultiply>::premultiply(c, s[3]);
+                let un = pre.unpremultiply();
+                let bare: $C = pre.into();
+                ensure!(bare == un.color, "{}::from(PreAlpha) = {:?} but unpremultiply gives {:?} (alpha {})", $name, bare, un.color, s[3]);
+                let (c2, _) = <$C as palette::blend::Premultiply>::unpremultiply(pre);
+                ensure!(c2 == un.color, "{}: Premultiply::unpremultiply differs from PreAlpha::unpremultiply", $name);
+            }};
+        }
+        routes!(palette::Xyz<palette::white_point::D65, f64>, palette::Xyz::new(s[0], s[1], s[2]), "Xyz");
+        routes!(palette::LinLuma<palette::white_point::D65, f64>, palette::LinLuma::new(s[0]), "LinLuma");
+        routes!(Lab<D65, f64>, Lab::new(s[0] * 100.0, s[1] * 100.0 - 50.0, s[2] * 100.0 - 50.0), "Lab");
+        routes!(palette::Oklab<f64>, palette::Oklab::new(s[0], s[1] - 0.5, s[2] - 0.5), "Oklab");
+    }
     if let Some(f) = deferred {
         return Err(f);
     }
